@@ -49,6 +49,21 @@ def _data(case):
     return parr, poly, line
 
 
+def _multi(case):
+    """multi-part arrays for the kernels operation (multipolygon / multiline / multipoint kernels have their own loops)"""
+    rs = np.random.RandomState(case['data_seed'] + 1)
+    n = case['n']
+    xy = rs.randint(0, 180, size=(n, 2))
+    wh = rs.randint(1, 20, size=(n, 2))
+
+    def ring(x, y, w, h):
+        return [int(x), int(y), int(x + w), int(y), int(x + w), int(y + h), int(x), int(y + h), int(x), int(y)]
+    mpoly = model.build_array('multipolygon', [[[ring(x, y, w, h)], [ring(x + 25, y + 3, h, w)]] for (x, y), (w, h) in zip(xy, wh)], 'float64')
+    mline = model.build_array('multiline', [[[int(x), int(y), int(x + w), int(y + h)], [int(x + 30), int(y), int(x + 30), int(y + h)]] for (x, y), (w, h) in zip(xy, wh)], 'float64')
+    mpt = model.build_array('multipoint', [[int(x), int(y), int(x + w), int(y + h)] for (x, y), (w, h) in zip(xy, wh)], 'float64')
+    return mpoly, mline, mpt
+
+
 def _canon(x):
     import pandas as pd
     if isinstance(x, tuple):
@@ -86,12 +101,20 @@ def _ops(case, tmp):
     if op == 'kernels':
         def prepare():
             parr, poly, line = _data(case)
-            return {'parr': parr, 'poly': poly, 'line': line, 'shape': model.build_array('polygon', [shape_rings], 'float64')[0]}
+            mpoly, mline, mpt = _multi(case)
+            return {'parr': parr, 'poly': poly, 'line': line, 'mpoly': mpoly, 'mline': mline, 'mpt': mpt,
+                    'shape': model.build_array('polygon', [shape_rings], 'float64')[0],
+                    'mshape': model.build_array('multipolygon', [[[shape_rings[0]], [[170, 100, 190, 100, 190, 130, 170, 100]]]], 'float64')[0],
+                    'lshape': model.build_array('multiline', [[[0, 0, 200, 200], [0, 200, 200, 0]]], 'float64')[0]}
 
         def run(o, tag):
             return (o['poly'].bounds, o['poly'].length, o['poly'].area, o['line'].length, o['poly'].intersects_bounds(box),
                     o['line'].intersects_bounds(box), o['parr'].intersects(o['shape']), o['parr'].intersects_bounds(box),
-                    np.array(o['poly'].total_bounds), o['poly'].hilbert_distance(p=9))
+                    np.array(o['poly'].total_bounds), o['poly'].hilbert_distance(p=9),
+                    o['mpoly'].intersects_bounds(box), o['mline'].intersects_bounds(box), o['mpt'].intersects_bounds(box),
+                    o['mpoly'].area, o['mpoly'].length, o['mline'].length, o['mpoly'].bounds,
+                    o['parr'].intersects(o['mshape']), o['parr'].intersects(o['lshape']),
+                    o['mpoly'].intersects_bounds(box, np.arange(0, len(o['mpoly']), 3)))
     elif op == 'cx':
         def prepare():
             left, right, line = frames()
